@@ -99,7 +99,7 @@ def bounds(tier):
         "topics": 2,
         "apis": ["produce", "fetch", "list_offsets", "offset_commit (coordinator)"],
         "broker_behaviours": ["answer", "refuse connection", "drop on request", "silent until timeout"],
-        "outside": "more brokers / payloads than stated; duplicated (topic,partition) payloads; TLS; DNS",
+        "interleave_job": "4 payloads on a fixed 3-broker layout, 24 payload orders, one broker symbolic (produce, fetch)", "outside": "more brokers / payloads than stated; duplicated (topic,partition) payloads; TLS; DNS",
     }
 
 
@@ -112,6 +112,10 @@ def jobs(tier):
     out = []
     for api in ("produce", "produce0", "fetch", "offsets"):
         out.append({"kind": "aware", "api": api, "nb": 3, "np": 3 if q else 4})
+    # four payloads on a fixed layout (t/0 and u/1 on broker 1, t/1 on broker 2, u/0 on broker 3), every payload order, brokers 1 and 2
+    # answering and broker 3 behaving symbolically: responses carried by FailedPayloadsError must keep the caller's order
+    for api in ("produce", "fetch"):
+        out.append({"kind": "aware", "api": api, "nb": 3, "np": 4, "interleave": True})
     out.append({"kind": "coordinator", "nb": 3})
     out.append({"kind": "unaware", "nb": 2, "nboot": 2})
     return out
@@ -187,17 +191,21 @@ def _aware(job):
         leaders = []
         for i, tp in enumerate(tps):
             opts = list(range(0, min(used + 1, nb) + 1))  # 0 = none, 1..nb
-            v = opts[ctx.choose("leader", len(opts))]
+            v = [1, 2, 3, 1][i] if job.get("interleave") else opts[ctx.choose("leader", len(opts))]
             leaders.append(v)
             used = max(used, v)
             cl.leaders[tp] = v if v != 0 else -1
         # which payloads, in which order
-        k = ctx.choose("npayloads", np_) + 1
+        k = np_ if job.get("interleave") else ctx.choose("npayloads", np_) + 1
         subset = tps[:k] if ctx.choose("subset", 2) == 0 else tps[-k:]
         perms = list(itertools.permutations(range(len(subset))))
         order = perms[ctx.choose("payload_order", len(perms))]
         targets = [subset[i] for i in order]
-        bh = {n + 1: BH[ctx.choose("behaviour", 4)] for n in range(nb) if any(cl.leaders[tp] == n + 1 for tp in targets)}
+        if job.get("interleave"):
+            # brokers 1 (two partitions) and 2 answer, broker 3 behaves symbolically: the survivors' partitions interleave in the caller's list
+            bh = {1: "answer", 2: "answer", 3: BH[ctx.choose("behaviour", 4)]}
+        else:
+            bh = {n + 1: BH[ctx.choose("behaviour", 4)] for n in range(nb) if any(cl.leaders[tp] == n + 1 for tp in targets)}
         ctx.sig("aware api=%s" % api)
         ctx.log("layout", sorted(cl.leaders.items()), targets, sorted(bh.items()))
         client = KafkaClient("boot:9092", reactor=clock, endpoint_factory=cl.net.endpoint_factory, timeout=10000,
